@@ -118,6 +118,7 @@ func allPerms(n int, f func([]int)) {
 
 func runC10(ctx *Ctx) {
 	r := ctx.Rng.Fork()
+	regCorrespondence(ctx, r, ctx.Budget(2000, 60000))
 	n := ctx.Budget(250, 6000)
 	kfSeen := false
 	for i := 0; i < n && len(ctx.Violations) < 10; i++ {
@@ -205,6 +206,7 @@ func freshBlocks(k int) []BlockM {
 
 func runC20(ctx *Ctx) {
 	r := ctx.Rng.Fork()
+	regCorrespondence(ctx, r, ctx.Budget(2000, 60000))
 	n := ctx.Budget(200, 8000)
 	for i := 0; i < n && len(ctx.Violations) < 10; i++ {
 		m := GenModel(r)
